@@ -30,7 +30,7 @@ CHECKS = {
         "limit): agreement of the stored populations and of get_PropagationMatrix with scipy's expm within the truncation "
         "bound / 1e-9 - the exponential itself is an oracle.",
    note=TB + "All C17 theorems are closed under the global context. Tie: random set_rate histories compared exactly in Coq; "
-        "propagation compared with the model over exact rationals within 1e-11. Glue tie: per run and fail-closed; expm and round are oracles that enter as function parameters; the correction blocks (Uc0/Uc1/Uc2) are tied by their guards only.",
+        "propagation compared with the model over exact rationals within 1e-11. Glue tie: per run and fail-closed; expm and round are oracles that enter as function parameters; the correction blocks (Uc0/Uc1/Uc2) are tied by their guards only; that neither get_PropagationMatrix (any corrections option) nor propagate stores through the propagator, its rate matrix, its axis or the arguments is established per run by the write-set analysis of harness/translate_c15.py (fail-closed) and monitored on real calls.",
    design="7/C17", technique="Coq proof (ring/induction over op histories and Taylor loop) + in-Coq differential correspondence + statement-level translator (set_rate and the _propagate_short_exp loop nest regenerated from the source, equivalence lemmas re-proved every run) + static tie of the glue around the kernels (initialisation, dispatch and decision trees, index bookkeeping, RWA and dephasing factors, sub-axis logic, constructors, fields read and written): the code's own expressions instantiate skeleton combinators (Proofs/C02gen.v, C07gen.v, C08objgen.v, C17gen.v) proved equal to Model/C02glue.v, C07glue.v, C08obj.v and C17axis.v"),
  "C19": dict(
    text="Proved in Coq for every history (induction over op lists, data in any commutative ring): whatever is readable at the end "
@@ -80,7 +80,7 @@ CHECKS = {
         "'No library call changes the caller's units' is monitored on ~30 public calls (succeeding and raising) inside contexts - "
         "this clause quantifies over library code and is validated, not proved.",
    note=TB + "All C05 theorems closed under the global context. Tie: 9 accessors x 121 unit pairs compared in Coq with the model on the "
-        "implementation's own factors (1e-13); random context programs incl. real builds compared state by state in Coq. Static tie: trusts harness/translate_c05.py; scalars take the except branch and arrays the try branch of the converters; check_numpy_array is the identity on the numbers; a context object is not re-entered while active; frequency converters are not tied; the access-context and argument-flow lemmas are syntactic-scope facts about the listed functions only.",
+        "implementation's own factors (1e-13); random context programs incl. real builds compared state by state in Coq. Static tie: trusts harness/translate_c05.py; scalars take the except branch and arrays the try branch of the converters; check_numpy_array is the identity on the numbers; a context object is not re-entered while active; frequency converters are not tied; the access-context and argument-flow lemmas are syntactic-scope facts about the listed functions only. Also per run: every generator function of the package is scanned (no yield inside a with block, so no units context is held open while a caller's loop body runs), and the public generators are consumed under units contexts by the check (monitor F).",
    design="7/C05", technique="Coq proof (field arithmetic over Q; induction over context programs) + static tie (GenC05.v): conversion tables, converters (scalar and array path), get/set/unset_current_units, the three context classes (through a proved `with` skeleton), delegations, units-managed properties, convert, the units switch of build, the units current at every managed access of the axis-conversion functions and the flow of the energy arguments of five setters are translated from the current source and proved equal to Model/C05.v (to_int/to_cur/_elt, set_e/set_l/unset_e, enter_e/exit_e, exec (PWithE/PWithL ...), convert) + in-Coq differential correspondence + transparency monitor comparing the stored state of 69 library calls made inside and outside units contexts"),
  "C04": dict(
    text="Proved in Coq over an abstract group of basis changes acting on abstract data (so for every class and every size): "
@@ -178,7 +178,9 @@ CHECKS = {
         "equality class of each result compared exactly with Model.C15.trace (repaired and pinned variants); any unmodelled changed "
         "attribute is a violation. Non-equilibrium Foerster, field-driven propagation and get_kernel are not exercised. Static tie: the abstract "
         "interpreter of harness/translate_c15.py, its per-shape branch conditions and its whitelists (library functions, tensor "
-        "constructors with declared cache effects, basis/unit contexts; printed into the generated file) join the trusted base.",
+        "constructors with declared cache effects, basis/unit contexts, the caller's own hfce function; printed into the generated file) join the "
+        "trusted base. A second pass of the interpreter treats every raise statement as an exit (refused arguments): gen_refusals_leave_inputs shows no "
+        "input field changed there; the check also makes such refused calls on real objects.",
    design="7/C15", technique="Coq proof (effect model, symbolic execution proved sound + reflection over all call shapes, induction over histories) + static tie: a fail-closed write-set / last-write / exposed-read analysis of the current source of the API methods (51 call shapes) compared inside Coq with the written and changed fields of the model's programs (equal written sets; changed fields within model_changed; exposed reads are inputs) + differential deep-snapshot correspondence"),
  "C18": dict(
    text="Proved in Coq (closed): packing data with an axis and extracting it is the identity for (N,) and (N,M>=2) arrays of every "
@@ -193,7 +195,7 @@ CHECKS = {
    note=TB + "All C18 theorems closed under the global context. Tie: the exhaustive matrix {dat,txt,npy,npz,mat} x {real,complex} x "
         "{axis,no axis} x 7 shapes through DataSaveable.save_data/load_data and MatrixData compared exactly in Coq; random "
         "new/read/enter/leave/save/load programs on real operators with exact signed-permutation contexts compared exactly with the "
-        "model; 21 Saveable classes x {none, units, basis} context at save x at load monitored (raw content, observables 1e-12). Static "
+        "model; 21 Saveable classes x {none, units, basis} context at save x at load monitored (raw content; observables - data, units-managed getters, aggregate couplings and the objects' own units conversion - read outside every context and under units active neither at saving nor at loading, 1e-12). Static "
         "tie: the translator harness/translate_c18.py and the exact-shape meaning given to numpy slice assignments in Proofs/C18gen.v "
         "join the trusted base; file I/O stays an oracle.",
    design="7/C18", technique="Coq proof (list-level model of pack/extract/format dispatch; C04 state machine extended with save/load) + static tie: _data_with_axis / _extract_data_with_axis, the extension dispatch and writer/reader methods of DataSaveable and MatrixData, savedir / loaddir and parcel.py template-matched from the current source, their constants, index expressions, dtype expression, ndmin and tag filter proved equal to Model/C18.v through skeleton lemmas in Proofs/C18gen.v + exhaustive finite matrix and random programs compared exactly in Coq"),
